@@ -68,7 +68,7 @@ inline std::string cmd_history(Reader &rd, std::map<uint32_t, std::vector<uint8_
         FaceBox fb;
         hooks().reset();
         make_face(fb, fbuf.p, fbuf.n, src, opts);
-        if (!fb.face) return "{\"face\":0}";
+        if (!fb.face) return "{\"face\":0,\"lerr\":[" + std::to_string(hooks().load_err) + "," + std::to_string(hooks().load_ctx) + "]}";
         if (fb.mf && (opts & gr_face_preloadAll) == gr_face_preloadAll) fb.mf->frozen = true;
         const gr_face *face = fb.face;
         std::vector<HSeg> segs;
